@@ -214,7 +214,7 @@ theorem joinRaw_append (a b : List PField) : joinRaw (a ++ b) = joinRaw a ++ joi
 /-- what decoding the bytes that ONE slot contributed does to a state in which that slot
     is still fresh (and, if the slot emitted anything, its oneof group is still unselected) -/
 def SlotStep (S : Schema) (rec : Loader) (d : MsgD) (k : Nat) (f : FieldD) (hid sel : Bool) (v : Val) : Prop :=
-  ∀ (st : MState) (b : Bytes), dumpSlot S f hid sel v = .ok b → k < st.slots.length → st.onWire = true →
+  ∀ (st : MState) (b : Bytes), dumpSlot S f hid sel v = .ok b → b.length < 2 ^ 64 → k < st.slots.length → st.onWire = true →
     st.slots.getD k .ph = freshVal f →
     (b ≠ [] → (∀ g, f.group = some g → st.cur.getD g Option.none = Option.none) ∧ MatesUnset d.fields st.slots k f) →
     ∃ pfs, (∀ pf ∈ pfs, Parsed pf) ∧ joinRaw pfs = b ∧
@@ -264,17 +264,17 @@ theorem slots_fold (S : Schema) (rec : Loader) (d : MsgD) (sl : List Val) (cur :
     (hsteps : ∀ k f v, d.fields[k]? = some f → sl[k]? = some v →
       SlotStep S rec d k f (hidden f k cur) (selectedInGroup f k cur) v) :
     ∀ (vs : List Val) (k : Nat) (st : MState) (out : Bytes), vs = sl.drop k → GI S d sl cur k st →
-      dumpSlots S d.fields cur k vs = .ok out →
+      dumpSlots S d.fields cur k vs = .ok out → out.length < 2 ^ 64 →
       ∃ pfs st', (∀ pf ∈ pfs, Parsed pf) ∧ joinRaw pfs = out ∧ foldFields S rec d st pfs = .ok st'
         ∧ GI S d sl cur (k + vs.length) st' ∧ st'.unknown = st.unknown ∧ (st.onWire = true → st'.onWire = true) := by
   intro vs
   induction vs with
   | nil =>
-    intro k st out _ hgi hd
+    intro k st out _ hgi hd _
     rw [dumpSlots] at hd; injection hd with hd; subst hd
     exact ⟨[], st, fun _ h => by simp at h, rfl, rfl, by simpa using hgi, rfl, id⟩
   | cons v vs ih =>
-    intro k st out hvs hgi hd
+    intro k st out hvs hgi hd hout
     have hkl : k < sl.length := by
       by_contra hc
       have : sl.drop k = [] := List.drop_eq_nil_of_le (by omega)
@@ -297,6 +297,8 @@ theorem slots_fold (S : Schema) (rec : Loader) (d : MsgD) (sl : List Val) (cur :
       | ok brest =>
         rw [hrest] at hd; simp only [bind_ok] at hd
         injection hd with hd; subst hd
+        have hbl : b.length < 2 ^ 64 := by simp only [List.length_append] at hout; omega
+        have hbrl : brest.length < 2 ^ 64 := by simp only [List.length_append] at hout; omega
         -- preconditions of the slot step
         have hpre : b ≠ [] → (∀ g, f.group = some g → st.cur.getD g Option.none = Option.none)
             ∧ MatesUnset d.fields st.slots k f := by
@@ -321,7 +323,7 @@ theorem slots_fold (S : Schema) (rec : Loader) (d : MsgD) (sl : List Val) (cur :
             · rcases hgi.done j fj (by omega) hfj with h1 | h1
               · rw [← hsD, h1, horig]
               · rw [← hsD, h1.1]; simp [freshVal, hfo]
-        obtain ⟨pfs1, hp1, hj1, hfold1⟩ := hsteps k f v hf hv st b hb (by rw [hgi.len]; exact hkf) hgi.ow
+        obtain ⟨pfs1, hp1, hj1, hfold1⟩ := hsteps k f v hf hv st b hb hbl (by rw [hgi.len]; exact hkf) hgi.ow
           (hgi.fresh k f (Nat.le_refl k) hf) hpre
         -- the state after this slot satisfies the invariant for k+1
         have hgi' : GI S d sl cur (k + 1) (if b = [] then st else afterStore st k f v) := by
@@ -417,7 +419,7 @@ theorem slots_fold (S : Schema) (rec : Loader) (d : MsgD) (sl : List Val) (cur :
                       apply propext; constructor <;> intro h <;> omega
                     simp only [this]
         obtain ⟨pfs2, st2, hp2, hj2, hfold2, hgi2, hunk2, how2⟩ :=
-          ih (k + 1) _ brest hvs' hgi' hrest
+          ih (k + 1) _ brest hvs' hgi' hrest hbrl
         refine ⟨pfs1 ++ pfs2, st2, ?_, ?_, ?_, ?_, ?_, ?_⟩
         · intro pf hpf; rcases List.mem_append.mp hpf with h | h
           · exact hp1 pf h
@@ -492,7 +494,7 @@ theorem roundtrip_of_steps (S : Schema) (c : Nat) (d : MsgD) (hd : S[c]? = some 
     (hm : MsgShape S d sl cur) (hunk : UnkOk d unk)
     (hsteps : ∀ (rec : Loader) k f v, d.fields[k]? = some f → sl[k]? = some v →
       SlotStep S rec d k f (hidden f k cur) (selectedInGroup f k cur) v)
-    (bs : Bytes) (hdump : dumpVal S (.msg c sl ow unk cur) = .ok bs) :
+    (bs : Bytes) (hdump : dumpVal S (.msg c sl ow unk cur) = .ok bs) (hblen : bs.length < 2 ^ 64) :
     ∃ sl', parse S c bs = .ok (.msg c sl' true unk cur)
       ∧ sl'.length = sl.length
       ∧ (∀ j f, d.fields[j]? = some f →
@@ -522,6 +524,7 @@ theorem roundtrip_of_steps (S : Schema) (c : Nat) (d : MsgD) (hd : S[c]? = some 
         cases cur.getD g Option.none <;> simp
     obtain ⟨pfs, st', hp, hj, hfold, hgi, hunk', how'⟩ :=
       slots_fold S rec0 d sl cur hm (hsteps rec0) sl 0 st0 body (by simp) hgi0 hbody
+        (by rw [← hbs] at hblen; simp only [List.length_append] at hblen; omega)
     -- all records, in order
     have hall : ∀ pf ∈ pfs ++ upfs, Parsed pf := by
       intro pf hpf; rcases List.mem_append.mp hpf with h | h
